@@ -38,28 +38,44 @@ fn main() {
     "record" => {
       let count = args.u64("count", 1000);
       let mut rng = Rng::new(seed);
+      // A panic of the harness itself (not of a guarded call into the crate) can only come from the crate handing back something the
+      // harness's own unguarded code cannot digest (an out-of-range index from a decoder, an accessor used to prepare inputs that
+      // panics on a valid argument): never on the unchanged tree. It must not end the run without a verdict: it is recorded as an
+      // event that no specification accepts, and the scenario goes on with a fresh stream (at most 5 times).
+      let mut attempt = 0u64;
+      loop {
+        let r = std::panic::catch_unwind(std::panic::AssertUnwindSafe(|| {
+          // (development aid: HPX_SELFTEST_ABORT simulates such a failure once, to test this path)
+          if attempt == 0 && std::env::var("HPX_SELFTEST_ABORT").is_ok() { panic!("selftest: simulated failure of the harness"); }
       match args.pos[1].as_str() {
-        "C01" => sc_nested::record_c01(&mut rng, count, &mut out),
-        "C02" => sc_nested::record_c02(&mut rng, count, &mut out),
-        "C03" => sc_nested::record_c03(&mut rng, count, &mut out),
-        "C19" => sc_nested::record_c19(&mut rng, count, &mut out),
-        "C04" => sc_nested::record_c04(&mut rng, count, &mut out),
-        "C14" => sc_nested::record_c14(&mut rng, count, &mut out),
-        "C13" => sc_cov::record_c13(&mut rng, count, &mut out),
-        "CONEBIG" => sc_cov::record_cone_large(&mut rng, count, &mut out),
-        "C12" => sc_cov::record_c12(&mut rng, count, &mut out),
-        "C16" => sc_cov::record_c16(&mut rng, count, &mut out),
-        "CONE" => sc_cov::record_cone(&mut rng, count, &mut out),
-        "C07" => sc_bmoc::record_c07(&mut rng, count, &mut out),
-        "C08" => sc_bmoc::record_c08(&mut rng, count, &mut out),
-        "C09" => sc_bmoc::record_c09(&mut rng, count, &mut out),
-        "C15" => sc_bmoc::record_c15(&mut rng, count, &mut out),
-        "C17" => sc_proj::record_c17(&mut rng, count, &mut out),
-        "C18" => sc_zoc::record_c18(&mut rng, count, &mut out),
-        "C10" => sc_ring::record_c10(&mut rng, count, &mut out),
-        "C11" => sc_ring::record_c11(&mut rng, count, &mut out),
-        "EXTRA" => sc_extra::record_extra(&mut rng, count, &mut out),
-        s => { eprintln!("unknown record scenario {}", s); std::process::exit(2); }
+            "C01" => sc_nested::record_c01(&mut rng, count, &mut out),
+            "C02" => sc_nested::record_c02(&mut rng, count, &mut out),
+            "C03" => sc_nested::record_c03(&mut rng, count, &mut out),
+            "C19" => sc_nested::record_c19(&mut rng, count, &mut out),
+            "C04" => sc_nested::record_c04(&mut rng, count, &mut out),
+            "C14" => sc_nested::record_c14(&mut rng, count, &mut out),
+            "C13" => sc_cov::record_c13(&mut rng, count, &mut out),
+            "CONEBIG" => sc_cov::record_cone_large(&mut rng, count, &mut out),
+            "C12" => sc_cov::record_c12(&mut rng, count, &mut out),
+            "C16" => sc_cov::record_c16(&mut rng, count, &mut out),
+            "CONE" => sc_cov::record_cone(&mut rng, count, &mut out),
+            "C07" => sc_bmoc::record_c07(&mut rng, count, &mut out),
+            "C08" => sc_bmoc::record_c08(&mut rng, count, &mut out),
+            "C09" => sc_bmoc::record_c09(&mut rng, count, &mut out),
+            "C15" => sc_bmoc::record_c15(&mut rng, count, &mut out),
+            "C17" => sc_proj::record_c17(&mut rng, count, &mut out),
+            "C18" => sc_zoc::record_c18(&mut rng, count, &mut out),
+            "C10" => sc_ring::record_c10(&mut rng, count, &mut out),
+            "C11" => sc_ring::record_c11(&mut rng, count, &mut out),
+            "EXTRA" => sc_extra::record_extra(&mut rng, count, &mut out),
+            s => { eprintln!("unknown record scenario {}", s); std::process::exit(2); }
+          }
+        }));
+        if r.is_ok() { break; }
+        attempt += 1;
+        out.emit(serde_json::json!({"ev": "harness_abort", "msg": last_panic(), "attempt": attempt}));
+        if attempt >= 5 || out.n >= count { break; }
+        rng = Rng::new(seed.wrapping_add(7919 * attempt));
       }
       out.flush();
       eprintln!("{{\"events\": {}}}", out.n);
@@ -75,6 +91,8 @@ fn main() {
         if l.trim().is_empty() { continue; }
         let v: serde_json::Value = serde_json::from_str(&l).expect("bad json line");
         stats.lines += 1;
+        let before = out.n;
+        let r = std::panic::catch_unwind(std::panic::AssertUnwindSafe(|| {
         match args.pos[1].as_str() {
           "C01" => sc_nested::replay_c01(&v, &mut out, &mut stats),
           "C03" => sc_nested::replay_c03(&v, &mut out, &mut stats),
@@ -90,6 +108,13 @@ fn main() {
           "C10" => sc_ring::replay_c10(&v, &mut out, &mut stats),
           "C11" => sc_ring::replay_c11(&v, &mut out, &mut stats),
           s => { eprintln!("unknown replay scenario {}", s); std::process::exit(2); }
+        }
+        }));
+        if r.is_err() {
+          // see `record`: the case is reported as a mismatch instead of ending the run
+          let _ = before;
+          stats.bad += 1;
+          out.emit(serde_json::json!({"verdict": "mismatch", "ev": "harness_abort", "msg": last_panic(), "case": v}));
         }
       }
       out.flush();
